@@ -267,8 +267,9 @@ def _run_corpus(mod, ctx, rep):
     for path in sorted(glob.glob(os.path.join(VERIF, 'corpus', mod.ID, '*.json'))):
         try:
             data = json.load(open(path))
+            import copy
             with contextlib.redirect_stdout(io.StringIO()):
-                mod.replay(ctx, rep, data['case'])
+                mod.replay(copy.copy(ctx), rep, data['case'])   # a replay must not be able to alter the run's ctx
             n += 1
         except Exception as e:  # noqa: BLE001
             rep.notes.append(f'corpus case {os.path.basename(path)} could not be replayed: {e!r}')
